@@ -16,9 +16,9 @@ def one(d):
                        capture_output=True, text=True)
     m = re.search(r"^\s+%s\s+(quiet|VIOLATION|NO-INPUT)\s+([\d.]+)s\s*(.*)$" % prop, p.stdout, re.M)
     res = (m.group(1), m.group(3)[:110]) if m else ("ERROR", (p.stdout + p.stderr)[-200:].replace("\n", " "))
-    # keep the own-property line of checks.txt current
+    # keep the own-property line of checks.txt current (default seed only)
     cp = os.path.join(d, "checks.txt")
-    if m and os.path.exists(cp):
+    if m and os.path.exists(cp) and not os.environ.get("VERIF_SEED"):
         lines = open(cp).read().splitlines()
         lines = [(m.group(0) if re.match(r"\s+%s\s" % prop, l) else l) for l in lines]
         open(cp, "w").write("\n".join(lines) + "\n")
